@@ -113,3 +113,7 @@ def run(rep):
     rt_common.impl_side(rep, PID, runs, lambda a, d: probe.oracle_family(d))
     rep.assumptions += ["Mutex / RwLock of std, tokio, async_std give mutual / reader-writer exclusion (Runtime/Family.v `compatible`)",
                         "&self methods do not mutate the actor (Rust's borrow checker); the handle side of each member is the single-actor model (C01-C03)"]
+
+
+def replay(rep, path):
+    return rt_common.replay_generic(rep, path)
